@@ -171,20 +171,29 @@ def sched_reach(*a):
 KA = [W.PASS, W.FAIL, W.ERROR, W.XPASS, W.SKIP_BODY, W.ERR_TD, W.TD_ERR]
 
 
-def equal(j, ka, kb, su, td, imp, verbose, both=False):
+def equal(j, ka, kb, su, td, imp, verbose, both=False, opt=0):
     global LAST
     j = ci(j, 1, 3)
+    opt = ci(opt, 0, 1)
     ka, kb = pick(KA, ka), pick(KA, kb)
-    su, td = ci(su, 0, 2), ci(td, 0, 2)
+    su, td = ci(su, 0, 2), ci(td, 0, 3)      # td 3: w.A cannot be torn down (NotImplementedError): the sequential run resumes the rest in subprocesses
     imp = cb(imp)
     both = cb(both)
     verbose = ci(verbose, 0, 2)
     with untraced():
         sud = {1: {'A': 1}, 2: {'B': 1}}.get(su, {})
-        tdd = {1: {'A': 1}, 2: {'B': 1}}.get(td, {})
+        tdd = {1: {'A': 1}, 2: {'B': 1}, 3: {'A': 2}}.get(td, {})
         world = FR.World({'a0': W.ERROR if both else W.PASS, 'a1': ka, 'b0': kb, 'b1': W.FAIL if both else W.PASS, 'u0': W.PASS, 'x0': W.PASS, 'x1': W.ERROR if both else W.PASS},
                          su=sud, td=tdd, imp=imp, order=['b0', 'x0', 'a0', 'u0', 'b1', 'a1', 'x1'])
     argv = ['-' + 'v' * verbose] if verbose else []
+    if opt == 1:          # --shuffle: the random module is replaced while CrossHair traces, so the order is drawn from a recorded stream
+        from harness import c11
+        c11.install_rng([3, 1, 4, 1, 5, 9, 2, 6, 5, 3, 5, 8, 9, 7, 9, 3])
+        argv = argv + ['--shuffle', '--shuffle-seed', '7']
+    else:
+        import random as _random
+        from zope.testrunner import shuffle as SH
+        SH.random = _random
     seq = FR.run(world, 'seq', argv=argv)
     par = FR.run(world, {1: 'j1', 2: 'j2', 3: 'j3'}[j], argv=argv)
     with untraced():
@@ -196,6 +205,7 @@ def equal(j, ka, kb, su, td, imp, verbose, both=False):
             return {
                 'escaped': r.escaped, 'thread_exc': tuple(r.thread_exc),
                 'executed': sorted(e[2] for e in r.trace if e[1] == 'test'),
+                'order of execution inside each layer': tuple(tuple(e[2] for e in r.trace if e[1] == 'test' and e[2][0] == ly) for ly in 'uabx'),
                 'failed': bool(r.failed), 'ran': r.ran,
                 'total (tests, failures, errors)': tot[:3] if tot else None,
                 'failure names': sorted(p['fail_names']), 'error names': sorted(p['err_names']),
@@ -215,7 +225,7 @@ def equal(j, ka, kb, su, td, imp, verbose, both=False):
             hp = [m for m in re.findall(r'Running (\S+) tests:', par.text) if m != '.EmptyLayer']
             if hs != hp:
                 why = 'layer blocks printed in order %r, sequential order %r' % (hp, hs)
-    LAST = (j, W.KIND_NAMES[ka], W.KIND_NAMES[kb], su, td, imp, verbose, why, len(par.children), both)
+    LAST = (j, W.KIND_NAMES[ka], W.KIND_NAMES[kb], su, td, imp, verbose, why, len(par.children), both, opt)
     return why is None
 
 
@@ -232,9 +242,9 @@ def _sb(dmax, gmax):
     return ('1 <= n <= 4 and 0 <= verbose <= 2 and ' + ' and '.join('1 <= d%d <= %d and 0 <= g%d <= %d and 0 <= a%d <= d%d' % (i, dmax, i, gmax, i, i) for i in range(3)))
 
 
-_PE = [('j', 'int'), ('ka', 'int'), ('kb', 'int'), ('su', 'int'), ('td', 'int'), ('imp', 'bool'), ('verbose', 'int'), ('both', 'bool')]
+_PE = [('j', 'int'), ('ka', 'int'), ('kb', 'int'), ('su', 'int'), ('td', 'int'), ('imp', 'bool'), ('verbose', 'int'), ('both', 'bool'), ('opt', 'int')]
 _CE = ', '.join(n for n, _ in _PE)
-_BE = '1 <= j <= 3 and 0 <= ka < %d and 0 <= kb < %d and 0 <= su <= 2 and 0 <= td <= 2 and 0 <= verbose <= 2' % (len(KA), len(KA))
+_BE = '1 <= j <= 3 and 0 <= ka < %d and 0 <= kb < %d and 0 <= su <= 2 and 0 <= td <= 3 and 0 <= verbose <= 2 and 0 <= opt <= 1' % (len(KA), len(KA))
 
 
 def _v(**kw):
@@ -244,7 +254,7 @@ def _v(**kw):
 
 
 def _ve(**kw):
-    v = dict(j=2, ka=1, kb=0, su=0, td=0, imp=False, verbose=1, both=False)
+    v = dict(j=2, ka=1, kb=0, su=0, td=0, imp=False, verbose=1, both=False, opt=0)
     v.update(kw)
     return v
 
@@ -271,11 +281,11 @@ SPEC = {
          'timeout': {'quick': 400, 'thorough': 1700},
          'fidelity': [_v(), _v(n=3, verbose=2, d0=2, d1=1, d2=2, g0=1, a0=0), _v(n=1, verbose=1, dots=False), _v(n=4, verbose=2, d0=1, d1=2, d2=1, a1=2)]},
         {'name': 'equal', 'fn': 'equal', 'params': _PE, 'call': _CE,
-         'bounds': {'quick': _BE + ' and verbose == 1 and (su != 0) + (td != 0) + imp <= 1 and kb <= 2 and (not both or (su == 0 and td == 0 and not imp))', 'thorough': _BE + ' and (su != 0) + (td != 0) + imp <= 1'},
+         'bounds': {'quick': _BE + ' and verbose == 1 and (su != 0) + (td != 0) + imp <= 1 and kb <= 2 and (not both or (su == 0 and td == 0 and not imp)) and (opt == 0 or (ka <= 1 and kb == 0 and su == 0 and not imp and not both)) and (td != 3 or kb <= 1)', 'thorough': _BE + ' and (su != 0) + (td != 0) + imp <= 1 and (opt == 0 or (su == 0 and not imp))'},
          'slices': {'quick': ['j == %d and ka == %d' % (j, k) for j in (1, 2, 3) for k in range(len(KA))],
                     'thorough': ['j == %d and ka == %d and verbose == %d' % (j, k, vb) for j in (1, 2, 3) for k in range(len(KA)) for vb in range(3)]},
          'reach': 'equal_reach', 'reach_bounds': {'quick': _BE + ' and su == 0', 'thorough': _BE + ' and su == 0'},
          'timeout': {'quick': 400, 'thorough': 1700},
-         'fidelity': [_ve(), _ve(j=3, ka=6, kb=2, td=1, verbose=2), _ve(j=1, su=2, imp=True, verbose=0), _ve(j=2, ka=2, kb=1, both=True)]},
+         'fidelity': [_ve(), _ve(j=3, ka=6, kb=2, td=1, verbose=2), _ve(j=1, su=2, imp=True, verbose=0), _ve(j=2, ka=2, kb=1, both=True), _ve(j=2, td=3), _ve(j=3, opt=1, ka=0), _ve(j=1, opt=1, td=3)]},
     ],
 }
